@@ -41,13 +41,12 @@ Lemma cm_delete_spec : forall batch cm key cm' ret,
   (forall k', k' < two64 ->
      cm_lookup batch cm' k' = if k' =? key then option_map neg_if_live (cm_lookup batch cm key)
                               else cm_lookup batch cm k') /\
-  (redelete_at batch cm key = false ->
-     ret = match cm_lookup batch cm key with
-           | Some v => if (0 <? ssz v)%Z then ssz v else 0%Z
-           | None => 0%Z
-           end).
+  ret = match cm_lookup batch cm key with
+        | Some v => if (0 <? ssz v)%Z then ssz v else 0%Z
+        | None => 0%Z
+        end.
 Proof.
-  intros batch cm key cm' ret Hinv Hk Hdel. unfold cm_delete in Hdel. unfold redelete_at.
+  intros batch cm key cm' ret Hinv Hk Hdel. unfold cm_delete in Hdel.
   destruct (locate batch cm key) as [x|] eqn:L.
   - destruct (locate_some batch cm key x Hinv Hk L) as [s [Hx [Hs [Hl [Hnext Hsub]]]]].
     pose proof (nth_error_lt _ _ _ Hx) as Hxl.
@@ -55,7 +54,7 @@ Proof.
     destruct (sec_delete s key) as [s' r'] eqn:Sdel. injection Hdel as <- <-.
     pose proof (ci_wf _ _ Hinv _ _ Hx) as W.
     destruct (sec_delete_spec batch s key s' r' (sw_inv _ _ W) Sdel) as [I' [Hst [Hen [Hlen [Hlk [Hret [Kv Ko]]]]]]].
-    rewrite Hsub, u32_small in Hlk, Hret by assumption. rewrite Hsub, u32_small by assumption.
+    rewrite Hsub, u32_small in Hlk, Hret by assumption.
     assert (W' : sec_wf batch s').
     { constructor; auto.
       - eapply sec_keys_same; eauto. apply (sw_keys _ _ W).
@@ -104,17 +103,12 @@ Proof.
             pose proof (stored_locate batch cm key i a Hinv Hk Ha Has He). congruence. }
       rewrite M. unfold f. destruct (N.eqb_spec k' key) as [->|Hne]; [reflexivity|].
       destruct (cm_lookup batch cm k'); reflexivity.
-    + intros Htrig. rewrite Hcur, Hret.
-      destruct (find_overflow (s_overflow s) (key - s_start s)) as [[c o]|] eqn:F.
-      * destruct (find_overflow_some _ _ _ _ (si_os _ _ (sw_inv _ _ W)) F) as [F1 _].
-        unfold sec_lookup. rewrite F1. destruct (Z.ltb_spec 0 (ssz o)); [reflexivity|].
-        destruct (Z.ltb_spec (ssz o) 0); [discriminate|lia].
-      * rewrite (find_overflow_none _ _ (si_os _ _ (sw_inv _ _ W)) F). reflexivity.
+    + rewrite Hcur, Hret. reflexivity.
   - injection Hdel as <- <-.
     assert (Hcur : cm_lookup batch cm key = None) by (unfold cm_lookup; rewrite L; reflexivity).
     split; [exact Hinv|]. split.
     + intros k' Hk'. destruct (N.eqb_spec k' key) as [->|]; [rewrite Hcur|]; reflexivity.
-    + intros _. rewrite Hcur. reflexivity.
+    + rewrite Hcur. reflexivity.
 Qed.
 
 (* ---------- the reference association list ---------- *)
@@ -138,8 +132,6 @@ Definition refines (batch : N) (cm : cmap) (r : rmap) : Prop :=
   cm_inv batch cm /\ forall k, k < two64 -> option_map val (cm_lookup batch cm k) = ref_get r k.
 Definition op_key (o : op) : N := match o with Put k _ _ => k | Del k _ => k | Get k => k end.
 Definition keys_ok (ops : list op) : Prop := Forall (fun o => op_key o < two64) ops.
-Definition step_trig (batch : N) (cm : cmap) (o : op) : bool :=
-  match o with Del k _ => redelete_at batch cm k | _ => false end.
 
 Lemma refines_nil : forall batch, refines batch [] [].
 Proof.
@@ -151,11 +143,11 @@ Proof. intros v. unfold neg_if_live, val. destruct (0 <? ssz v)%Z; reflexivity. 
 
 Lemma step_refines : forall batch cm r o, refines batch cm r -> op_key o < two64 ->
   refines batch (fst (cm_step batch cm o)) (fst (ref_step r o)) /\
-  (step_trig batch cm o = false -> snd (cm_step batch cm o) = snd (ref_step r o)).
+  snd (cm_step batch cm o) = snd (ref_step r o).
 Proof.
   intros batch cm r o [Hinv Hrel] Hk. destruct o as [k off sz|k off|k]; simpl in Hk.
   - (* Put *)
-    cbn [cm_step ref_step step_trig].
+    cbn [cm_step ref_step].
     destruct (cm_set batch cm k off sz) as [[cm' oo] os] eqn:E.
     destruct (cm_set_spec batch cm k off sz cm' oo os Hinv Hk E) as [Hinv' [[v0 [Ho [Hsz Hlk]]] Hold]].
     pose proof (Hrel k Hk) as Rk.
@@ -163,15 +155,15 @@ Proof.
     + split; [split; [exact Hinv'|]|].
       * intros k' Hk'. rewrite Hlk by assumption. rewrite ref_get_put.
         destruct (N.eqb_spec k' k); [simpl; unfold val; rewrite Ho, Hsz; reflexivity|apply Hrel; assumption].
-      * intros _. destruct (cm_lookup batch cm k) as [o|]; simpl in Rk; [|discriminate].
+      * destruct (cm_lookup batch cm k) as [o|]; simpl in Rk; [|discriminate].
         injection Rk as R1 R2. injection Hold as -> ->. rewrite R1, R2. reflexivity.
     + split; [split; [exact Hinv'|]|].
       * intros k' Hk'. rewrite Hlk by assumption. rewrite ref_get_put.
         destruct (N.eqb_spec k' k); [simpl; unfold val; rewrite Ho, Hsz; reflexivity|apply Hrel; assumption].
-      * intros _. destruct (cm_lookup batch cm k) as [o|]; simpl in Rk; [discriminate|].
+      * destruct (cm_lookup batch cm k) as [o|]; simpl in Rk; [discriminate|].
         injection Hold as -> ->. reflexivity.
   - (* Delete *)
-    cbn [cm_step ref_step step_trig].
+    cbn [cm_step ref_step].
     destruct (cm_delete batch cm k) as [cm' ret] eqn:E.
     destruct (cm_delete_spec batch cm k cm' ret Hinv Hk E) as [Hinv' [Hlk Hret]].
     pose proof (Hrel k Hk) as Rk.
@@ -182,38 +174,36 @@ Proof.
         -- intros k' Hk'. rewrite Hlk by assumption. rewrite ref_get_put.
            destruct (N.eqb_spec k' k); [|apply Hrel; assumption].
            simpl. rewrite val_neg. destruct (Z.ltb_spec 0 (ssz v)); [reflexivity|lia].
-        -- intros Ht. rewrite (Hret Ht). destruct (Z.ltb_spec 0 (ssz v)); [reflexivity|lia].
+        -- rewrite Hret. destruct (Z.ltb_spec 0 (ssz v)); [reflexivity|lia].
       * split; [split; [exact Hinv'|]|].
         -- intros k' Hk'. rewrite Hlk by assumption.
            destruct (N.eqb_spec k' k) as [->|]; [|apply Hrel; assumption].
            simpl. rewrite val_neg. destruct (Z.ltb_spec 0 (ssz v)); [lia|]. rewrite <- (Hrel k Hk), Lk. reflexivity.
-        -- intros Ht. rewrite (Hret Ht). destruct (Z.ltb_spec 0 (ssz v)); [lia|reflexivity].
+        -- rewrite Hret. destruct (Z.ltb_spec 0 (ssz v)); [lia|reflexivity].
     + rewrite <- Rk. cbn [fst snd]. split; [split; [exact Hinv'|]|].
       * intros k' Hk'. rewrite Hlk by assumption.
         destruct (N.eqb_spec k' k) as [->|]; [|apply Hrel; assumption].
         simpl. rewrite <- (Hrel k Hk), Lk. reflexivity.
-      * intros Ht. rewrite (Hret Ht). reflexivity.
+      * rewrite Hret. reflexivity.
   - (* Get *)
-    cbn [cm_step ref_step step_trig fst snd]. split; [split; assumption|]. intros _.
+    cbn [cm_step ref_step fst snd]. split; [split; assumption|].
     rewrite (cm_get_spec batch cm k Hinv Hk). pose proof (Hrel k Hk) as Rk.
     destruct (cm_lookup batch cm k) as [v|]; simpl in Rk; rewrite <- Rk; reflexivity.
 Qed.
 
 Lemma run_refines : forall batch ops cm r, refines batch cm r -> keys_ok ops ->
   refines batch (snd (cm_run batch cm ops)) (snd (ref_run r ops)) /\
-  (trig_redelete_from batch cm ops = false -> fst (cm_run batch cm ops) = fst (ref_run r ops)).
+  fst (cm_run batch cm ops) = fst (ref_run r ops).
 Proof.
   intros batch ops. induction ops as [|o ops IH]; intros cm r Href Hk; [split; [exact Href|reflexivity]|].
   inversion Hk as [|? ? Hk1 Hk2]; subst.
   destruct (step_refines batch cm r o Href Hk1) as [Hnext Hres].
-  cbn [cm_run ref_run trig_redelete_from].
+  cbn [cm_run ref_run].
   destruct (cm_step batch cm o) as [cm' x] eqn:E1. destruct (ref_step r o) as [r' y] eqn:E2.
   cbn [fst snd] in *.
   destruct (IH cm' r' Hnext Hk2) as [Hfin Hrs].
   destruct (cm_run batch cm' ops) as [rs fin]. destruct (ref_run r' ops) as [rs' fin'].
-  cbn [fst snd] in *. split; [exact Hfin|].
-  intros Ht. apply orb_false_iff in Ht. destruct Ht as [Ht1 Ht2].
-  unfold step_trig in Hres. rewrite (Hres Ht1), (Hrs Ht2). reflexivity.
+  cbn [fst snd] in *. split; [exact Hfin|]. rewrite Hres, Hrs. reflexivity.
 Qed.
 
 (* invariants of every reachable CompactMap *)
@@ -233,11 +223,10 @@ Proof.
   destruct (cm_lookup batch (snd (cm_run batch [] ops)) key); reflexivity.
 Qed.
 
-(* all results (old values of Set, sizes of Delete, answers of Get) = the reference, unless the
-   history re-deletes an already deleted overflow entry *)
-Theorem results_refine_partial : forall batch ops, keys_ok ops -> trig_redelete batch ops = false ->
+(* FULL: all results (old values of Set, sizes of Delete, answers of Get) = the reference *)
+Theorem results_refine : forall batch ops, keys_ok ops ->
   fst (cm_run batch [] ops) = fst (ref_run [] ops).
 Proof.
-  intros batch ops Hk Ht.
-  destruct (run_refines batch ops [] [] (refines_nil batch) Hk) as [_ H]. apply H. exact Ht.
+  intros batch ops Hk.
+  destruct (run_refines batch ops [] [] (refines_nil batch) Hk) as [_ H]. exact H.
 Qed.
